@@ -32,9 +32,12 @@ ASSUMPTIONS = ['Python float(str) is correctly rounded (decimal -> double)',
 TRUSTED = ['modelled, not verified: Python re (RE_COMMENT, RE_SECT_HEAD, RE_LINE_FIELD_0/1 replaced by explicit scanners), '
            'str.strip/split/find/rfind, int(), float(), numpy array storage and masking, LogPass.FrameArray duplicate-key check']
 
-F_NULL = 'F-C09-1'      # unparseable values become -999.25 even when the file declares another NULL
-F_WRAP1 = 'F-C09-2'     # wrapped file with a single curve and more than one frame is refused
-F_IDENT = 'F-C09-3'     # a curve whose mnemonic is the number j (another column's index) receives column j's values
+ANCHOR_FILES = ['src/TotalDepth/LAS/core/LASRead.py', 'src/TotalDepth/common/LogPass.py', 'src/TotalDepth/common/AbsentValue.py']
+
+# Repaired in /repo (fix: commits): declared NULL ignored, single-curve wrapped files refused, values of a curve named
+# like a column index stored in the wrong channel.  These classes are still generated; a failure there is UNLISTED.
+# What remains open: mnemonics/units that look like a number or yes/no are returned retyped (int/float/bool).
+F_RETYPED = 'C09-numeric-looking-mnemonic-retyped'
 
 
 def _impl():
@@ -102,7 +105,7 @@ def model_struct(reply):
     arr = None
     if a is not None:
         arr = {'names': [[v(n[0]), v(n[1])] for n in a['names']],
-               'frames': [[_fhex(G.NULL_DEFAULT) if c is None else _fhex(G.dec_to_float(c[0], c[1])) for c in row] for row in a['frames']]}
+               'frames': [[_fhex(G.dec_to_float(*a['null'])) if c is None else _fhex(G.dec_to_float(c[0], c[1])) for c in row] for row in a['frames']]}
     return {'sections': secs, 'array': arr}
 
 
@@ -140,13 +143,6 @@ def oracle(ctx, LR, content, text, case, res=None):
     want = G.expected(content, G.NULL_DEFAULT if decl is None else decl)
     ncur, nfr = len(G.curves_of(content)), len(content['frames'])
     if got != want:
-        if 'err' not in got and decl is not None and decl != G.NULL_DEFAULT and _has_bad(content) \
-                and got == G.expected(content, G.NULL_DEFAULT):
-            ctx.fail(case, f'unparseable values replaced by -999.25, the file declares NULL={decl}', finding=F_NULL)
-            return False
-        if got.get('err') == 'ExceptionLASReadSectionArray' and G.wrap_of(content) and ncur == 1 and nfr >= 2:
-            ctx.fail(case, 'wrapped file with one curve and several frames refused (array overflow)', finding=F_WRAP1)
-            return False
         ctx.fail(case, 'reader result differs from the written content: ' + _diff(got, want))
         return False
     # masks: channels 1.. are masked exactly where the value equals the null value; the X axis is never masked
@@ -158,10 +154,7 @@ def oracle(ctx, LR, content, text, case, res=None):
             data = np.ma.getdata(ch.array)[:, 0]
             exp = (data == null) if ci > 0 else np.zeros(len(data), dtype=bool)
             if list(mask) != list(exp):
-                if ci > 0 and null != G.NULL_DEFAULT and list(mask) == list(data == G.NULL_DEFAULT):
-                    ctx.fail(case, f'channel {ci} is masked at -999.25, the file declares NULL={decl}', finding=F_NULL)
-                else:
-                    ctx.fail(case, f'channel {ci}: mask {[bool(x) for x in mask]} but values {[float(x) for x in data]}')
+                ctx.fail(case, f'channel {ci}: mask {[bool(x) for x in mask]} but values {[float(x) for x in data]} (NULL={null})')
                 return False
     # lookups by mnemonic give the first line with that mnemonic; channels by name
     for s in [{'typ': 'V', 'kind': 'H', 'lines': content['v']}] + content['sects']:
@@ -180,16 +173,38 @@ def oracle(ctx, LR, content, text, case, res=None):
     return True
 
 
+def _retype(text):
+    """Independent reference for what string_to_value does to a field (used only to delimit the open finding)."""
+    for f in (int, float):
+        try:
+            return _cv(f(text))
+        except ValueError:
+            pass
+    t = text.strip()
+    return ['b', 1] if t.lower() == 'yes' else ['b', 0] if t.lower() == 'no' else ['t', t]
+
+
 def oracle_numeric_mnemonic(ctx, LR, content, text, case):
-    """Curve mnemonic that is the number of another column: only the data values are compared."""
+    """Mnemonics/units that look like a number or yes/no: the data values and everything else must be as written
+    (unlisted failure otherwise); the retyped mnemonic/unit itself is the open finding F_RETYPED."""
     from gen import las as G
     ctx.count('oracle_cases')
     got, las = impl_parse(LR, text)
-    want = G.expected(content)['array']['frames']
-    if 'err' in got or got['array'] is None or got['array']['frames'] != want:
-        ctx.fail(case, 'data values stored in the wrong channel: ' + (got.get('err') or _diff({'sections': [], 'array': got['array']}, {'sections': [], 'array': dict(got['array'], frames=want)})), finding=F_IDENT)
+    decl = G.declared_null(content)
+    want = G.expected(content, G.NULL_DEFAULT if decl is None else decl)
+    if got == want:
+        return True
+    if 'err' in got or got['array'] is None or got['array']['frames'] != want['array']['frames']:
+        ctx.fail(case, 'data values of a curve with a number-like mnemonic are not the ones written: ' + _diff(got, want))
         return False
-    return True
+    retyped = {'sections': [[t, [m if m[0] == 'R' else ['L', _retype(m[1][1]), _retype(m[2][1]), m[3], m[4]] for m in ms]]
+                            for t, ms in want['sections']],
+               'array': dict(want['array'], names=[[_retype(n[0][1]), _retype(n[1][1])] for n in want['array']['names']])}
+    if got == retyped:
+        ctx.fail(case, 'mnemonic/unit returned retyped by string_to_value: ' + _diff(got, want), finding=F_RETYPED)
+    else:
+        ctx.fail(case, 'reader result differs from the written content beyond the retyped mnemonic/unit: ' + _diff(got, retyped))
+    return False
 
 
 # ------------------------------------------------------------------ malformed texts
@@ -325,7 +340,7 @@ def run(ctx):
         ctx.corr('lasparse_wslines', {'op': 'text', 'text': t}, res[0], model_struct(r))
         oracle(ctx, LR, c, t, {'op': 'content_text', 'content': c, 'text': t}, res)
 
-    # ---- known-finding classes of the property's input space
+    # ---- classes repaired in /repo (declared NULL, single-curve wrapped): still generated, a failure is unlisted
     for _ in range(ctx.n(20, 100)):
         c = G.gen_content(rng, null=rng.choice([['f', -9999, 0], ['i', -9999], ['f', -99999, -2]]), bad_rate=0.3, allow_bad_x=False)
         l = G.gen_layout(rng, c)
@@ -338,14 +353,21 @@ def run(ctx):
         l = G.gen_layout(rng, c)
         oracle(ctx, LR, c, G.print_las(c, l), _case(c, l))
 
-    for _ in range(ctx.n(8, 40)):
-        c = G.gen_content(rng, max_curves=5, bad_rate=0.0, allow_bad_x=False, null=['f', -99925, -2])
+    for _ in range(ctx.n(12, 60)):
+        c = G.gen_content(rng, max_curves=5)
         cur = G.curves_of(c)
-        if len(cur) < 3 or not c['frames']:
-            continue
-        i = rng.randrange(1, len(cur))
-        j = rng.choice([k for k in range(len(cur)) if k != i])
-        cur[i]['mnem'] = str(j)
+        used = {h['mnem'] for h in cur}
+        k = rng.randrange(4)
+        if k <= 1 and len(cur) >= 2:          # a curve named like another column's index / a number / yes-no
+            i = rng.randrange(1, len(cur))
+            names = [str(j) for j in range(len(cur)) if j != i] + ['NO', 'Yes', '1E3', '007', '-25', 'yes']
+            cur[i]['mnem'] = rng.choice([n for n in names if n not in used])
+        elif k == 2:                           # a unit that looks like a number
+            rng.choice(cur)['unit'] = rng.choice(['1', '10', '1e3', 'NO', '0.1'])
+        else:                                  # a well/parameter mnemonic that looks like a number
+            hs = [h for s_ in c['sects'] if s_['kind'] == 'H' and s_['typ'] != 'C' for h in s_['lines'] if h['mnem'] not in ('NULL',)]
+            if not hs: continue
+            rng.choice(hs)['mnem'] = rng.choice(['1', '2', '42', 'yes', '35e-1'])
         l = G.gen_layout(rng, c)
         oracle_numeric_mnemonic(ctx, LR, c, G.print_las(c, l), {'op': 'content_numeric', 'content': c, 'layout': l})
 
@@ -409,7 +431,8 @@ def run(ctx):
     for s, r in zip(gl, reps):
         ctx.corr('generate_lines', {'op': 'lines', 's': s}, [ln for _, ln in LR.generate_lines(io.StringIO(s))],
                  [bytes.fromhex(x).decode('ascii') for x in json.loads(r)])
-    ctx.note('F-C09-1 / F-C09-2 are input classes on which the unchanged reader departs from the statement; see notes/C09.md')
+    ctx.note('open finding: mnemonics/units that look like a number or yes/no are returned retyped (notes/C09.md); the repaired '
+             'classes (declared NULL, single-curve wrapped, curve named like a column index) are generated on every run')
 
 
 def replay(ctx, rec):
@@ -428,7 +451,7 @@ def replay(ctx, rec):
         oracle_numeric_mnemonic(ctx, LR, case['content'], G.print_las(case['content'], case['layout']), case)
         if len(ctx.failures) > n0:
             return False, ctx.failures[-1]['detail']
-        return True, 'the data values are the ones written'
+        return True, 'the reader returns the written content (or only the known retyping of a number-like mnemonic/unit)'
     if case.get('op') == 'content_text':
         n0 = len(ctx.failures)
         oracle(ctx, LR, case['content'], case['text'], case)
